@@ -95,7 +95,7 @@ theorem done_operand (k : OKind) (text : String) : Done (.operand k text) [.oper
   · intro p' _ st0 out; rfl
   · intro st0 out; rfl
   · intro s he hs
-    have h1 := not_operand_rparen s.prev he
+    have h1 := not_operand_rparen_percent s.prev he
     apply runToks_single
     · simp [step, h1, pushOperand]
     · simpa using topLO_ne s.st (stops_topLO _ _ hs)
@@ -107,7 +107,7 @@ theorem done_paren (t : Ast) (ts : List Tok) (q : Nat) (h : Done t ts q) : Done 
   · intro st0 out; rfl
   · intro s he hs
     have ht := stops_topLO _ _ hs
-    have h1 := not_operand_rparen s.prev he
+    have h1 := not_operand_rparen_percent s.prev he
     have hst : s.st ≠ [] := by
       intro h; rw [h] at ht; simp [TopLO] at ht
     have hlp : step s .lp = .ok ⟨.lp 0 .pos false :: s.st, s.out, .lparen⟩ := by simp [step, h1]
@@ -301,7 +301,7 @@ theorem done_call (name : String) (l : List (Ast × List Tok × Nat)) (hd : ∀ 
   · intro st0 out; rfl
   · intro s hexp hs
     have ht := stops_topLO _ _ hs
-    have h1 := not_operand_rparen s.prev hexp
+    have h1 := not_operand_rparen_percent s.prev hexp
     have hst : s.st ≠ [] := by
       intro h; rw [h] at ht; simp [TopLO] at ht
     have hfn : step s (.fn name) = .ok ⟨.lp 0 .any false :: .fn name :: s.st, s.out, .lparen⟩ := by simp [step, h1, fnStep]
